@@ -156,7 +156,15 @@ namespace bloch::update {
             out << cache.latestVersion << "\n";
             out << toSeconds(cache.lastNotified) << "\n";
             out.flush();
-            return static_cast<bool>(out);
+            if (!out)
+                return false;
+            out.close();
+            // Written is not kept: a cache file that swallows writes (a link to /dev/null, a full
+            // disk) must count as unwritable, or the notice is repeated on every invocation.
+            const auto kept = loadCache();
+            return kept && kept->latestVersion == cache.latestVersion &&
+                   toSeconds(kept->lastChecked) == toSeconds(cache.lastChecked) &&
+                   toSeconds(kept->lastNotified) == toSeconds(cache.lastNotified);
         }
 
         // What may follow the numeric components: nothing, or a pre-release / build suffix
